@@ -57,22 +57,22 @@ class _MetricsConfigBase(ABC):
         self.target_labels: List[LabelType] = target_labels
 
         num_targets: int = len(target_labels)
-        if center_distance_thresholds:
+        if center_distance_thresholds is not None and center_distance_thresholds != []:
             self.center_distance_thresholds = set_thresholds(center_distance_thresholds, num_targets, True)
         else:
             self.center_distance_thresholds = []
 
-        if plane_distance_thresholds:
+        if plane_distance_thresholds is not None and plane_distance_thresholds != []:
             self.plane_distance_thresholds = set_thresholds(plane_distance_thresholds, num_targets, True)
         else:
             self.plane_distance_thresholds = []
 
-        if iou_2d_thresholds:
+        if iou_2d_thresholds is not None and iou_2d_thresholds != []:
             self.iou_2d_thresholds = set_thresholds(iou_2d_thresholds, num_targets, True)
         else:
             self.iou_2d_thresholds = []
 
-        if iou_3d_thresholds:
+        if iou_3d_thresholds is not None and iou_3d_thresholds != []:
             self.iou_3d_thresholds = set_thresholds(iou_3d_thresholds, num_targets, True)
         else:
             self.iou_3d_thresholds = []
